@@ -9,7 +9,7 @@ EXTENDS FxDeviations
 
 CONSTANT Prop          \* the property being decided by this run, e.g. "C01"
 
-UnsignedTags == {"u8", "u16", "u32", "u64", "f32", "f64", "b", "b6"}
+UnsignedTags == {"u8", "u16", "u32", "u64", "ull", "f32", "f64", "b", "b6"}
 Dec(tag, limbs) == IF tag \in UnsignedTags THEN ZFromLimbs(limbs) ELSE Wrap(ZFromLimbs(limbs))
 
 Event(j) ==
